@@ -16,7 +16,8 @@ for pid, d in sorted(md.CHECKS.items()):
         replay_cmd_template=f'./check {pid} --replay {{path}}',
         engine='coq-proof+correspondence',
         level_claimed=dict(category='proof', text=d['text'],
-                           design_ref=d['design_ref']),
+                           design_ref=(f"§12.2 (row {pid}) and §12.3 as built; plan: "
+                                       + d['design_ref'])),
         level_note=d['note'],
         technique=d['technique']))
 allp = [json.loads(l)['id'] for l in open(os.path.join(here, 'properties.jsonl'))]
